@@ -89,6 +89,17 @@ func main() {
 				fmt.Println("  ", n)
 			}
 		}
+	case "inlinable":
+		w, err := loadWorld(repo)
+		if err != nil {
+			fmt.Fprintln(os.Stderr, err)
+			os.Exit(2)
+		}
+		for _, fn := range w.allFuncs {
+			if w.canInline(fn) {
+				fmt.Println(w.funcName(fn))
+			}
+		}
 	case "list":
 		w, err := loadWorld(repo)
 		if err != nil {
